@@ -45,8 +45,8 @@ def _verify_one(args):
             d = {'name': r.vc.name, 'status': r.status, 'backend': r.backend, 'time_s': round(r.time_s, 4),
                  'ok': r.ok, 'expect': r.vc.expect, 'note': r.vc.note, 'line': r.vc.line, 'detail': r.detail[:300]}
             if not r.ok:
-                d['model'] = _model_summary(r)
-                d['replay'] = _contract_replay(k, r)
+                d['model'] = r.model_summary
+                d['replay'] = r.replay
                 d['smt2'] = _smt2(r.vc)[:6000]
             out['results'].append(d)
         out['sample'] = _smt2(rep.results[0].vc)[:1500] if rep.results else ''
